@@ -81,6 +81,11 @@ class Tok:
     def __iter__(self):
         return iter([Tok(self.ident + (1,)), Tok(self.ident + (2,))])
 
+    def __bool__(self):
+        # every target of the frame machine is falsy: a truth test in the library is never a substitute for
+        # an identity / None / emptiness test
+        return False
+
     def __repr__(self):
         return 't' + '.'.join(str(i) for i in self.ident)
 
